@@ -396,7 +396,28 @@ func (m *gatherModel) Problems() []vtProblem {
 	return p
 }
 
-func (m *gatherModel) Finish() []vtProblem { return nil }
+// Finish: the fair completion of a gathering history. Nothing more is answered, the clock runs past every STUN and
+// TURN timeout: a cycle that was started and not cancelled by Restart (or ended by Close / Failed) has then run to
+// completion — the state is Complete and the cycle has emitted its one end-of-gathering marker.
+func (m *gatherModel) Finish() []vtProblem {
+	if m.closed || m.failed {
+		return nil
+	}
+	time.Sleep(40 * time.Second)
+	settle()
+	m.observe("fair completion")
+	st, _ := m.a.GetGatheringState()
+	cur := m.curCycle()
+	if cur != nil && !cur.cancelled && cur.gen == m.fn.gen { // (a Restart after completion ends that cycle's generation)
+		if st != GatheringStateComplete {
+			m.problem("", "a gathering cycle that nobody cancelled never completes: every request has timed out and the state is %s", st)
+		} else if cur.nils != 1 {
+			m.problem("", "a gathering cycle that ran to completion emitted %d end-of-gathering markers", cur.nils)
+		}
+	}
+
+	return m.Problems()
+}
 
 var gIfacesBasic = []gIface{ //nolint:gochecknoglobals
 	{Name: "eth0", Up: true, Addrs: []string{"10.0.0.1"}},
@@ -452,7 +473,7 @@ func checkC09(c *runCtx) {
 		specs = f
 	}
 	for _, s := range specs {
-		vtSearch(c, p, vtSpec{Name: "gathering: " + s.name, Model: "gather", Cfg: s.cfg, Deadline: dl})
+		vtSearch(c, p, vtSpec{Name: "gathering: " + s.name, Model: "gather", Cfg: s.cfg, Finish: true, Deadline: dl})
 	}
 	// goroutine scheduling inside one event: gathering racing Restart, and the window between addCandidate's
 	// cancellation check and the hand-over to the loop, under the controlled scheduler; the resource census is the oracle
